@@ -97,6 +97,12 @@ impl Subject for WTinySubj {
             103 => vec![c.main_cache_cap() as i128],
             25 => {
                 let c2 = c.clone();
+                // the clone answers every accessor like the original at this moment
+                if (c2.cap(), c2.len(), c2.is_empty(), c2.window_cache_cap(), c2.window_cache_len(), c2.main_cache_cap(), c2.main_cache_len())
+                    != (c.cap(), c.len(), c.is_empty(), c.window_cache_cap(), c.window_cache_len(), c.main_cache_cap(), c.main_cache_len())
+                {
+                    return vec![-7];
+                }
                 let old = std::mem::replace(c, c2);
                 let n = old.len() as u64;
                 let before = ledger_drain();
